@@ -83,6 +83,13 @@ mod core_simd {
     use ::glam_core as glam;
     include!("suite.rs");
 }
+/// core-simd with `glam-assert`: the second pass for the portable-simd copies (a quarter of the volume)
+#[cfg(feature = "core")]
+mod core_asserting {
+    pub const VARIANT: &str = "core+glam-assert";
+    use ::glam_core_assert as glam;
+    include!("suite.rs");
+}
 
 fn main() {
     let args = Args::parse();
@@ -99,6 +106,7 @@ fn main() {
     #[cfg(feature = "core")]
     {
         subs.extend(core_simd::subs(&args));
+        subs.extend(core_asserting::subs(&args).into_iter().map(|s| s.with_div(4)));
     }
     let code = main_with("C09", "see MANIFEST / evidence rule", &args, subs);
     std::process::exit(code);
